@@ -77,15 +77,27 @@ def run(tier, seed, ck=None):
     if own:
         kernels.prove(ck, 'scalar', ['FromMontgomery'], tier)
         # the ladder is checked over the CONTRACT of Add/Double; that contract is re-proved on the current tree (C02's obligations)
-        from props import C02, fallback
-        try:
-            C02.run(tier, seed, ck)
-        except (ValueError, core.EngineError) as e:
-            ck.record('C01.group-law', 'Add/Double formulas could not be encoded (%s)' % str(e)[:120], 'unknown', 'symx', 0.0, 'unsat')
-            path = ck.save_replay({'property': 'C01', 'cases': fallback.cases_for('C02', seed), 'reason': str(e)[:300]})
+        from props import C02
+
+        def group_law_failed(key, why, extra):
+            # replayed through the property itself: [k]P for points whose projective scaling comes from the failing obligation's model or
+            # sits at the fold boundaries of the small-constant multiplications
+            scal = [int(c_[f_], 16) for c_ in extra if c_.get('kind') == 'el-scaled' for f_ in ('a', 'b') if int(c_[f_], 16) > 1]
+            scal += [int(c_['a'], 16) for c_ in C02.fold_boundary_scalings()[:24] if int(c_['a'], 16) > 1]
+            ks = [N - 1, 2**255 + 12345, 3, (N - 1) // 2, 0x5555555555555555555555555555555555555555555555555555555555555555 % N]
+            cases = [{'kind': 'multiply', 'a': '%064x' % k, 'b': '%064x' % j, 'c': '%064x' % l} for l in list(dict.fromkeys(scal))[:16] for k in ks[:3] for j in (1, 5)]
+            cases += [{'kind': 'multiply', 'a': '%064x' % k, 'b': '%064x' % j, 'c': '%064x' % 7} for k in ks for j in (1, 5, 0)]
+            path = ck.save_replay({'property': 'C01', 'cases': cases, 'reason': '%s: %s' % (key, why)})
             ok, out = core.go_test(path)
             if not ok and 'MISMATCH' in out:
-                ck.violation('group-law', 'the addition/doubling used by the ladder is wrong: %s' % [l.strip() for l in out.splitlines() if 'MISMATCH' in l][:1], path)
+                ck.violation('group-law', 'the addition/doubling used by the ladder is wrong (%s): %s' % (why, [l.strip() for l in out.splitlines() if 'MISMATCH' in l][:1]), path)
+            else:
+                ck.inconclusive.append('%s: the Add/Double contract the ladder proof relies on fails, but no scalar multiplication in the battery is wrong' % key)
+        try:
+            C02.run(tier, seed, ck, only={'op2_0_0', 'op1_2'}, on_fail=group_law_failed)   # Add on distinct operands and Double: what the ladder calls
+        except (ValueError, core.EngineError) as e:
+            ck.record('C01.group-law', 'Add/Double formulas could not be encoded (%s)' % str(e)[:120], 'unknown', 'symx', 0.0, 'unsat')
+            group_law_failed('group-law', 'not encodable: %s' % str(e)[:120], [])
     failures = []
 
     def step(k):
